@@ -1,6 +1,7 @@
 package sym
 
 import (
+	"os"
 	"fmt"
 	"go/types"
 	"strings"
@@ -111,7 +112,10 @@ func (ex *Exec) unmarshalTo(b *BytesV, t types.Type) Val {
 		nm := Namer{Prefix: b.Row.Base + "!row", Keys: b.Row.Key}
 		v := ex.symbolic(t, nm)
 		ex.rowInvAssume(b.Row, v, t)
-		return v
+		if os.Getenv("GOVC_NOKEYCANON") != "" {
+			return v
+		}
+		return ex.rowKeyFields(b.Row, v, t)
 	}
 	ex.abort("unmarshal of bytes %s", b.Tag)
 	return nil
@@ -152,6 +156,18 @@ func copyDeep(v Val) Val {
 			}
 			return &PtrV{C: nc, Path: x.Path, T: x.T}
 		case *LazyV:
+			// a lazy value this path has already looked into (and possibly written through)
+			// is copied as what it has become, not as its pristine name
+			if ce := currentExec; ce != nil {
+				if r, ok := ce.sliceMemo[x]; ok {
+					return rec(r)
+				}
+				if r, ok := ce.forceMemo[x]; ok {
+					if _, again := r.(*LazyV); !again {
+						return rec(r)
+					}
+				}
+			}
 			return &LazyV{T: x.T, Nm: x.Nm}
 		case *CoinsV:
 			c := &CoinsV{Sym: x.Sym}
@@ -650,3 +666,6 @@ func validBech32(s *smt.Term) *smt.Term {
 	}
 	return smt.App("validbech32", smt.Bool, s)
 }
+
+// currentExec is the path being explored (exploration is sequential; only solving is parallel).
+var currentExec *Exec
